@@ -71,3 +71,44 @@ def vx_extract(expanded_path, overlay=None, scratch=None):
     if rc != 0:
         raise Undecided("vx extract failed: " + err[-2000:])
     return json.loads(out)
+
+
+def expand_isolating(scratch, specs, name="corpus_x", target=None, rounds=4):
+    """expand; corpus modules the macro rejects are dropped and reported: (path, live specs, {mod: message})"""
+    import re
+    live = list(specs)
+    rejected = {}
+    last = ""
+    for attempt in range(rounds):
+        src = crate_source(live)
+        # line ranges of the modules
+        ranges = []
+        line = src[: src.index(live[0].render())].count("\n") + 1 if live else 1
+        pos = 0
+        for s_ in live:
+            t = s_.render()
+            idx = src.index(t, pos)
+            start = src[:idx].count("\n") + 1
+            ranges.append((start, start + t.count("\n"), s_.mod))
+            pos = idx + len(t)
+        try:
+            path, dt = expand(scratch, live, name=name, target=target)
+            return path, live, rejected
+        except ExpandError as e:
+            last = str(e)
+            bad = {}
+            for blk in re.split(r"\n(?=error)", last):
+                if not blk.startswith("error"):
+                    continue
+                m = re.search(r"--> src/main\.rs:(\d+):", blk)
+                if not m:
+                    continue
+                ln = int(m.group(1))
+                for (a, b, modname) in ranges:
+                    if a <= ln <= b:
+                        bad.setdefault(modname, blk.strip()[:1500])
+            if not bad:
+                raise
+            rejected.update(bad)
+            live = [s_ for s_ in live if s_.mod not in bad]
+    raise ExpandError("still failing after removing rejected modules: " + last[-3000:])
